@@ -26,7 +26,7 @@ import (
 
 func init() { hx.Register("C11/sweep", "C11", runC11Sweep) }
 
-var c11SweepKinds = []string{"truncate", "bit0", "bit1", "bit2", "bit3", "bit4", "bit5", "bit6", "bit7", "byte00", "byte7f", "byte80", "byteff", "varint-max", "varint-max-3", "varint-2^31", "u32-fffffff0"}
+var c11SweepKinds = []string{"truncate", "bit0", "bit1", "bit2", "bit3", "bit4", "bit5", "bit6", "bit7", "byte00", "byte7f", "byte80", "byteff", "varint-max", "varint-max-1", "varint-2^31", "u32-fffffff0"}
 
 func c11SweepApply(data []byte, kind string, pos int) []byte {
 	out := append([]byte(nil), data...)
@@ -52,8 +52,8 @@ func c11SweepApply(data []byte, kind string, pos int) []byte {
 		out[pos] = 0xff
 	case kind == "varint-max":
 		put(0xff, 0xff, 0xff, 0xff, 0x0f)
-	case kind == "varint-max-3":
-		put(0xfc, 0xff, 0xff, 0xff, 0x0f)
+	case kind == "varint-max-1":
+		put(0xfe, 0xff, 0xff, 0xff, 0x0f)
 	case kind == "varint-2^31":
 		put(0x80, 0x80, 0x80, 0x80, 0x08)
 	case kind == "u32-fffffff0":
@@ -67,6 +67,9 @@ func runC11Sweep(t *testing.T, tp *simrt.Tape, keepTrace bool) hx.Result {
 	victimIdx := tp.Gen(len(corpus.Shards))
 	victim := corpus.Shards[victimIdx]
 	kind := c11SweepKinds[tp.Fault(len(c11SweepKinds))]
+	if k := os.Getenv("VERIF_C11_KIND"); k != "" {
+		kind = k // experiments only
+	}
 	// a healthy neighbour with disjoint repositories
 	var healthy *sImage
 	for i, im := range corpus.Shards {
@@ -104,6 +107,10 @@ func runC11Sweep(t *testing.T, tp *simrt.Tape, keepTrace bool) hx.Result {
 		&query.Const{Value: true},
 		&query.Regexp{Regexp: mustRe(sVocab[28][:3] + "[a-z]+"), Content: true},
 		&query.Substring{Pattern: "dir", FileName: true},
+		// longer patterns: the two trigrams the matcher intersects are several bytes apart
+		&query.Substring{Pattern: sVocab[29], Content: true},
+		&query.Substring{Pattern: sVocab[31], Content: true},
+		&query.Substring{Pattern: sVocab[13], Content: true},
 	}
 	type ref struct{ files []string }
 	var refs []ref
